@@ -8,8 +8,8 @@ class Hostile(concretise.Theme):
     trailing blanks, reserved prefixes, non-ASCII; same order structure as `plain`."""
     name = "csv-hostile"
     regex = False
-    meas = sorted([" m,0", 'a"q"', "a,b\r\nc", "b\nnl", "ba;'x'", "cé\U0001F600"] + ['d%02d,"x"' % i for i in range(90)])
-    strs = sorted(["", "a,1", 'a"2"', "b\r\n3", "bü\n4", "c\t;5 "] + ["d%02d\n" % i for i in range(90)])
+    meas = sorted([" m,0", 'a"q"', "a,b\r\nc", "b\nnl", "ba;'x'", "cé\U0001F600"] + ['d%03d,"x"' % i for i in range(300)])
+    strs = sorted(["", "a,1", 'a"2"', "b\r\n3", "bü\n4", "c\t;5 "] + ["d%03d\n" % i for i in range(300)])
     tagkeys = sorted(["k,1", "_tag_x", 't_"k3"'])
     fieldkeys = sorted(["f\n1", "_field_y", "f_ 3"])
 
@@ -18,8 +18,8 @@ class Latin(concretise.Theme):
     """Strings encodable in latin-1 (for the encoding matrix of C04)."""
     name = "latin"
     regex = False
-    meas = sorted(["0m", "aé", "ab,ü", 'b"ñ"', "ba\n", "c"] + ["d%02d" % i for i in range(90)])
-    strs = sorted(["0", "aé", "ab;è", "b\r\n", "baß", "c,"] + ["d%02d" % i for i in range(90)])
+    meas = sorted(["0m", "aé", "ab,ü", 'b"ñ"', "ba\n", "c"] + ["d%03d" % i for i in range(300)])
+    strs = sorted(["0", "aé", "ab;è", "b\r\n", "baß", "c,"] + ["d%03d" % i for i in range(300)])
 
 
 def _edge_times():
@@ -43,8 +43,8 @@ def _edge_times():
     base = sorted(set(base))
     t = base[-1]
     out = list(base)
-    for i in range(75):
-        t = t + timedelta(hours=7, microseconds=i)
+    for i in range(300):
+        t = t + timedelta(hours=1, microseconds=i)
         out.append(t)
     return out
 
@@ -73,6 +73,7 @@ class TimeFar(concretise.Theme):
                datetime(2106, 2, 7, 6, 28, 15, 999999, U), datetime(2106, 2, 7, 6, 28, 16, 0, U)]
         pts += [end - (60 - i) * us for i in range(61)]
         pts += [end - timedelta(days=400) + timedelta(hours=i) for i in range(30)]
+        pts += [datetime(1901, 1, 1, tzinfo=U) + timedelta(days=30 * i, microseconds=i) for i in range(300)]   # filler between the interesting ends
         return sorted(set(pts))
     times = _t.__func__()
 
